@@ -404,6 +404,9 @@ def run(ctx, rep):
         wl, wo = RD.iterator_roles(fx, rep, "C01.R", impl)
         if wl:
             RD.check_with_lines(fx, rep, "C01.R", impl, wl, "C01.R")
+        if wl and wo:
+            nq = RD.check_query_readonly(fx, rep, "C01.R", impl, A.method(fx, impl + "::RemappedFrameIter", "next", trait="Iterator") + [wl, wo], "C01.R")
+            rep.floor("C01.R/query-readonly/" + impl, nq, 2, "functions holding the stored query (%s)" % impl)
         n = BR.check_entry_fields(fx, rep, "C01.B", impl)
         rep.floor("C01.B/" + impl, n, 8, "Method-record paths in the %s builder" % impl)
         BR.check_class_header_arms(fx, rep, "C01.B3", impl)
